@@ -8,6 +8,7 @@ mod par;
 mod props;
 mod refmodel;
 mod report;
+mod semi;
 mod sess;
 mod vpipe;
 
@@ -60,6 +61,7 @@ fn main() {
             "C02" => props::c02::replay(&file),
             "C05" => props::pad::replay_c05(&file),
             "C09" => props::c09::replay(&file),
+            "C10" => props::c10::replay(&file),
             "C11" => props::c11::replay(&file),
             _ => {
                 eprintln!("replay is not supported for {id}");
@@ -74,7 +76,9 @@ fn main() {
         "C03" => props::c03::run(tier),
         "C04" => props::pad::run_c04(tier),
         "C05" => props::pad::run_c05(tier),
+        "C07" => props::c07::run(tier),
         "C09" => props::c09::run(tier),
+        "C10" => props::c10::run(tier),
         "C11" => props::c11::run(tier),
         _ => {
             eprintln!("unknown check {id}");
